@@ -7,7 +7,7 @@
 
         levels[j] = [kind |-> "obj",  key |-> class of the key under which the next level (or the final leaf) sits,
                                       sib |-> "none" | "sx" | "n"      an extra leaf entry with a sensitive / neutral key]
-                  | [kind |-> "list", key |-> "-",
+                  | [kind |-> "list" | "tuple", key |-> "-",
                                       sib |-> "none" | "item"          an extra leaf item next to the spine item]
         levels[1].kind = "obj"        (the claims object itself is a mapping)
         alias \in 0..2                a = 1 or 2: the container of level a+1 is referenced a SECOND time, under a neutral
@@ -15,8 +15,11 @@
                                       assembled from shared sub-objects; a walker with a "seen" guard must still redact
                                       both occurrences); a = 1 shares across two top-level claims, a = 2 inside one
 
-   plus a few deeper spines (DeepCases, depth MaxDepth+1 .. DeepDepth, neutral all the way down to one sensitive key):
-   "at any nesting depth" has no bound in the statement.
+   The container grammar is recursive over {mapping, list, tuple}: from level 2 on every level may be any of the three,
+   so every parent/child combination (list in list, tuple in list, mapping in list in tuple, ...) occurs at every level
+   pair up to the bound.  Beyond the bound there are ContainerChains (depth MaxDepth+1 .. ChainDepth: every sequence of
+   neutral-keyed mappings / lists / tuples, with or without a sibling item, ending in one sensitive key) and a few still
+   deeper spines (up to DeepDepth): "at any nesting depth" has no bound in the statement.
 
    key classes:  "sx" sensitive, exact name (email, token, given_name, ...)
                  "ss" sensitive name as a substring (access_token, work_email, ...)
@@ -27,8 +30,8 @@
    Keys:    "k<j>" (spine key of level j), "s<j>" (sibling key of level j).
 
    How a tree reaches the log is a second, independent dimension (Configs): which redactor is installed, the level
-   of the access logger (the emitter has DEBUG-only branches), the Python flavour of the containers (dict/list or
-   a non-dict Mapping / tuple -- claims are Python objects, not JSON text), whether the context is authenticated
+   of the access logger (the emitter has DEBUG-only branches), the Python flavour of the mappings (dict, or a
+   non-dict Mapping such as MappingProxyType / OrderedDict -- claims are Python objects, not JSON text), whether the context is authenticated
    (allow-mode gates attach claims to unauthenticated contexts), and the formatter (plain JSON, access-log formatter,
    access-log formatter with a byte cap small enough to shed fields).
 
@@ -39,6 +42,7 @@
 EXTENDS Naturals, Sequences, FiniteSets, TLC
 
 CONSTANTS MaxDepth,
+          ChainDepth,          \* container chains up to this depth (>= MaxDepth; = MaxDepth: none)
           DeepDepth,           \* deeper single-path spines up to this depth (>= MaxDepth; = MaxDepth: none)
           Dev_TopLevelOnly     \* historical deviation of redact_claims: only top-level claim names are looked at (FALSE = intended)
 
@@ -46,24 +50,31 @@ KeyClasses == {"sx", "ss", "sc", "n"}
 Sens(k) == k \in {"sx", "ss", "sc"}
 
 ObjLevels  == [kind : {"obj"}, key : KeyClasses, sib : {"none", "sx", "n"}]
-ListLevels == [kind : {"list"}, key : {"-"}, sib : {"none", "item"}]
-Levels == ObjLevels \cup ListLevels
+SeqLevels  == [kind : {"list", "tuple"}, key : {"-"}, sib : {"none", "item"}]
+Levels == ObjLevels \cup SeqLevels
 
 RECURSIVE Spines(_)
 Spines(d) == IF d = 1 THEN {<<l>> : l \in ObjLevels}
              ELSE LET prev == Spines(d - 1) IN prev \cup {Append(p, l) : p \in {q \in prev : Len(q) = d - 1}, l \in Levels}
 
-Plain(kind) == IF kind = "obj" THEN [kind |-> "obj", key |-> "n", sib |-> "none"] ELSE [kind |-> "list", key |-> "-", sib |-> "none"]
+Plain(kind) == IF kind = "obj" THEN [kind |-> "obj", key |-> "n", sib |-> "none"] ELSE [kind |-> kind, key |-> "-", sib |-> "none"]
 RECURSIVE DeepSeq(_, _, _, _)
 DeepSeq(j, d, mixed, last) == IF j > d THEN <<>>
                               ELSE <<IF j = d THEN [kind |-> "obj", key |-> last, sib |-> "none"]
                                      ELSE IF mixed /\ j % 2 = 0 THEN Plain("list") ELSE Plain("obj")>> \o DeepSeq(j + 1, d, mixed, last)
-DeepCases == {[levels |-> DeepSeq(1, d, m, k), alias |-> 0] : d \in (MaxDepth + 1)..DeepDepth, m \in BOOLEAN, k \in {"sx", "ss", "sc"}}
+DeepCases == {[levels |-> DeepSeq(1, d, m, k), alias |-> 0] : d \in (ChainDepth + 1)..DeepDepth, m \in BOOLEAN, k \in {"sx", "ss", "sc"}}
+
+\* every chain of containers below a neutral top-level key, ending in a mapping with one sensitive key
+ChainLevels == {Plain("obj")} \cup SeqLevels
+RECURSIVE Mids(_)
+Mids(n) == IF n = 0 THEN {<<>>} ELSE {Append(p, l) : p \in Mids(n - 1), l \in ChainLevels}
+ContainerChains == {[levels |-> <<Plain("obj")>> \o m \o <<[kind |-> "obj", key |-> k, sib |-> "none"]>>, alias |-> 0] :
+                       m \in UNION {Mids(d - 2) : d \in (MaxDepth + 1)..ChainDepth}, k \in {"sx", "ss", "sc"}}
 
 AliasOK(c) == c.alias = 0 \/ (/\ Len(c.levels) >= c.alias + 1 /\ c.levels[c.alias].kind = "obj"
                              /\ \A j \in 1..c.alias : c.levels[j].sib = "none")     \* (keeps the alias family small)
 Cases == {c \in {[levels |-> p, alias |-> a] : p \in Spines(MaxDepth), a \in 0..2} : AliasOK(c)}
-         \cup DeepCases
+         \cup ContainerChains \cup DeepCases
 
 \* how a tree is logged
 Configs == [mode : {"default", "raising"}, level : {"info", "debug"}, flavour : {"plain", "alt"}, auth : BOOLEAN,
@@ -128,7 +139,7 @@ IntendedCoversTopLevel(c) == HiddenTopLevelOnly(c.levels) \subseteq Hidden(c.lev
 (* observation o:
      cfg      a member of Configs: how the record was produced
                 mode "default" the default redactor / "raising" a custom redactor that raises
-                level   level of the vgi_rpc.access logger          flavour  dict+list / non-dict Mapping+tuple
+                level   level of the vgi_rpc.access logger          flavour  dict / non-dict Mapping
                 auth    AuthContext.authenticated                    fmt      formatter ("capped": tiny max_record_bytes)
      emitted  a record was written
      shed     the formatter's byte cap shed fields of this record (then key visibility cannot be demanded)
